@@ -48,6 +48,10 @@ def scenarios(thorough=False):
                  {"x": 1}, {"f1": [("ok",)], "f2": [("ok",)]}, {"f1": 20, "f2": 20}))
     out.append(S("seq-retry", {"StartAt": "T", "States": {"T": T("f1", Retry=[{"ErrorEquals": ["States.ALL"], "IntervalSeconds": 1, "MaxAttempts": 2}])}},
                  {}, {"f1": [("err", "Boom", "m"), ("ok",)]}, {"f1": 10}))
+    # a retry interval longer than the period of the retained-reply handler (1 s): a reply that arrives around the restart is
+    # retained, and the handler has to come round again until the redelivered retry event has registered its request
+    out.append(S("seq-retry-long-interval", {"StartAt": "T", "States": {"T": T("f1", Retry=[{"ErrorEquals": ["States.ALL"], "IntervalSeconds": 3, "MaxAttempts": 2}])}},
+                 {}, {"f1": [("err", "Boom", "m"), ("ok",)]}, {"f1": 10}))
     out.append(S("seq-catch-fail", {"StartAt": "T", "States": {"T": T("f1", Catch=[{"ErrorEquals": ["Boom"], "Next": "F"}]),
                                                                  "F": {"Type": "Fail", "Error": "E", "Cause": "c"}}},
                  {}, {"f1": [("err", "Boom", "m")]}, {"f1": 10}))
